@@ -19,7 +19,7 @@ for p in props:
         'engine': 'lean-proof+correspondence',
         'level_claimed': {'category': 'proof', 'text': c['text'], 'design_ref': f"DESIGN.md §3 {p['id']}"},
         'level_note': c['note'],
-        'technique': 'Lean 4 machine-checked proof about a hand-written model + model/implementation correspondence check',
+        'technique': 'Lean 4 machine-checked proof about an executable model of the code; the model is tied to /repo on every run by a model/implementation correspondence check and, for declarative constants and integer code, by translators that regenerate Lean definitions from the source',
     })
 m = {'version': 1, 'setup_cmd': './setup.sh',
      'hooks': {'guard': 'MRPRO_VERIF', 'enable': 'no source hooks are needed: all observation is through the public API',
